@@ -159,6 +159,14 @@ func (w *world) checkLevel(l slog.Level) {
 	if err := unmarshalTextQuiet(&l2, mt); err != nil || l2 != l {
 		vlib.Discrep(t, "C17/text-roundtrip", "C17 after [%s]: UnmarshalText(MarshalText(%d)=%q) = (%d, %v)", w.history(), int(l), mt, int(l2), err)
 	}
+	// the returned slice belongs to the caller: whatever they do to it, the next result is the name again
+	wantT := string(mt)
+	for i := range mt {
+		mt[i] = '.'
+	}
+	if again, err := l.MarshalText(); err != nil || string(again) != wantT {
+		vlib.Discrep(t, "C17/text-roundtrip", "C17 after [%s]: MarshalText(%d) gives %q (%v) after the caller wrote into the slice returned by the previous call; it gave %q before", w.history(), int(l), again, err, wantT)
+	}
 	// JSON round trips: direct and inside a struct through encoding/json
 	mj, err := l.MarshalJSON()
 	if err != nil {
@@ -167,6 +175,13 @@ func (w *world) checkLevel(l slog.Level) {
 	var l3 slog.Level = -12345
 	if err := unmarshalJSONQuiet(&l3, mj); err != nil || l3 != l {
 		vlib.Discrep(t, "C17/json-roundtrip", "C17 after [%s]: UnmarshalJSON(MarshalJSON(%d)=%s) = (%d, %v)", w.history(), int(l), mj, int(l3), err)
+	}
+	wantJ := string(mj)
+	for i := range mj {
+		mj[i] = '.'
+	}
+	if again, err := l.MarshalJSON(); err != nil || string(again) != wantJ {
+		vlib.Discrep(t, "C17/json-roundtrip", "C17 after [%s]: MarshalJSON(%d) gives %s (%v) after the caller wrote into the slice returned by the previous call; it gave %s before", w.history(), int(l), again, err, wantJ)
 	}
 	type holder struct {
 		L slog.Level `json:"l"`
